@@ -110,6 +110,33 @@ pub fn run(run: &mut Run, seed: u64, thorough: bool, replay: Option<&str>, corpu
             }
         }
     }
+    // oracle, exhaustive in both tiers: every CRC-16 register value x 4 bytes against 8 bit steps; a failing
+    // (state, byte) is turned into a failing byte STRING via the 2-byte prefix that produces the state
+    let mut reported = 0;
+    for c in 0..=65535u16 {
+        for b in [0u8, 1, 0x80, 0xFF] {
+            let mut x = c ^ ((b as u16) << 8);
+            for _ in 0..8 {
+                x = if x & 0x8000 != 0 { (x << 1) ^ 0x1021 } else { x << 1 };
+            }
+            if update_crc16(c, b) != x && reported < 4 {
+                reported += 1;
+                let mut found = false;
+                'outer: for p0 in 0..=255u8 {
+                    for p1 in 0..=255u8 {
+                        if bit16(&[p0, p1]) == c {
+                            one(run, &[p0, p1, b]);
+                            found = true;
+                            break 'outer;
+                        }
+                    }
+                }
+                if !found {
+                    run.oracle_fail("update_crc16", &format!("{:04x}{:02x}", c, b), "update_crc16 != 8 bit steps");
+                }
+            }
+        }
+    }
     // update_crc32 over seeded states
     for _ in 0..(if thorough { 200_000 } else { 4096 }) {
         let c = rng.next() as u32;
